@@ -95,6 +95,13 @@ pub fn judge(policy: &Policy, eng: &Engine, out: &StepOut) -> Verdict {
 // Apply one generated operation; returns the step outputs (a NewUser is several steps).
 pub fn apply_op(eng: &mut Engine, op: &Op) -> Vec<StepOut> {
     match op {
+        Op::Multi(v) => {
+            let mut outs = vec![];
+            for o in v {
+                outs.extend(apply_op(eng, o));
+            }
+            outs
+        }
         Op::Connect => {
             eng.connect();
             vec![]
